@@ -129,6 +129,21 @@ pub fn scenarios(prop: &str, tier: &str) -> Vec<Scenario> {
                 out.push(sc);
             }
         }
+        // problem definitions with three start states: each tree still has ONE root (the first start for the start
+        // tree); a further start state - here one the checker rejects in the obstructed world - is no tree node
+        if prop == "C15" || prop == "C16" {
+            for w in [b.world_free(), b.world_named("subset1111", b.obstacles.clone())] {
+                for &pk in &planners {
+                    let mut sc = b.scenario(w.clone(), b.params(pk, 1.0, 1.5, 0.0), &format!("{prop}/{kit}/{}/{}x1/three-starts", w.name, pk.name()));
+                    let inside = match &b.obstacles[0] {
+                        ObstSpec::Ball(c, _) => c.clone(),
+                        _ => b.alphabet[b.sub3[2] as usize].clone(),
+                    };
+                    sc.extra_starts = vec![inside, b.alphabet[b.sub3[1] as usize].clone()];
+                    out.push(sc);
+                }
+            }
+        }
         // a planner object that has LIVED BEFORE: setup, several iterations on other samples, setup again
         // with the same problem - whatever a planner keeps beside its tree (tables indexed by node,
         // caches, flags) must have been reset with it; the whole BFS then runs from that object
